@@ -176,4 +176,33 @@ PROPS = {
         "trusted": BT_TRUST + ["a goleveldb iterator is a snapshot of the store taken when it is created (this is what the correspondence run checks from outside: rows after the scan position keep their pre-write state within a range, later ranges see the writes)"],
         "assumptions": ["writes are issued from inside the harness's own stream.Send, i.e. exactly in the windows in which the scan has released the table lock; the btree engine is excluded (it documents that it does not offer this)"],
     },
+    "C08": {
+        "lean": "Emu.Props.C08",
+        "diffs": [
+            {"cmd": "btcrash", "scenario": "c08", "quick": 25, "thorough": 600, "corpus": "btcrash"},
+        ],
+        "facts": [],
+        "trusted": BT_TRUST + ["rename(2)/unlink(2) are atomic; a goleveldb row write is atomic and survives the death of the process; goleveldb recovers its journal; a copy of the directory taken at an instant is what a process killed at that instant leaves (data written but not synced is in the page cache, which a copy and a restarted process both see; a machine crash is not modelled)"],
+        "assumptions": ["crash positions are the request boundaries and the verifCrashPoint hooks inside SetTableMeta, newDiskDb(nuke) and leveldbRows.Clear, as the property's quantifier says; a crash in the middle of a multi-row request (MutateRows, prefix drop, purge) is outside it"],
+    },
+    "C09": {
+        "lean": "Emu.Props.C09",
+        "diffs": [
+            {"cmd": "gcs", "scenario": "c09", "quick": 100, "thorough": 2500},
+            {"cmd": "gcs", "scenario": "c09r", "quick": 80, "thorough": 2000, "engines": "file"},
+            {"cmd": "gcs", "scenario": "c09p", "quick": 60, "thorough": 1500, "engines": "file", "no_corpus": True},
+        ],
+        "facts": ["gcs.filestore_fields"],
+        "trusted": GCS_TRUST + ["object name <-> file path is one-to-one for names representable as files (the directory structure is not modelled; the generated names are representable)"],
+        "assumptions": ["a restart is a new GcsEmu on the same directory (the filestore struct has no field besides the directory name and a mutex — fact gcs.filestore_fields — so a kill between requests leaves nothing else to lose); resumable upload sessions live in the emulator, not in the store, and do not survive a restart"],
+    },
+    "C20": {
+        "lean": "Emu.Props.C20",
+        "diffs": [
+            {"cmd": "robust", "scenario": "c20", "quick": 600, "thorough": 20000, "no_corpus": True},
+        ],
+        "facts": ["bt.partial_ops", "gcs.partial_ops", "bt.tables_access_outside_server_mu", "lock.state_access_outside_map_mu", "bt.server_rpc_methods", "gcs.handlers"],
+        "trusted": ["net/http, gRPC and the Go runtime behave as documented; requests reach the Bigtable service as the wire can carry them (every generated message is encoded and decoded once before the call)"],
+        "assumptions": ["PARTIAL: the theorems cover the sequential slicing/indexing sites only; panics elsewhere, data races, fatal runtime errors, hangs and leaks are searched for (request perturbation, concurrent mix in a child process, race detector in the thorough tier), not proved absent"],
+    },
 }
